@@ -821,6 +821,16 @@ def updatePositions (m : Meta) : PosSrc → Meta
   | .expr (some o) => ⟨copyKey o.line m.line, copyKey o.col m.col, copyKey o.start m.start, copyKey o.stop m.stop⟩
   | .explicit l c s e => ⟨some l, some c, some s, some e⟩
 
+/-- `meta.get(k)` / `meta_get(k)` -/
+def getKey (k : Option (Option Nat)) : Option Nat := match k with | some v => v | none => none
+
+/-- the parser-side position merge of two adjacent parts into one identifier (BigQuery `INFORMATION_SCHEMA.VIEW`):
+    `update_positions(line=.., col=last.col, start=first.start, end=last.end)`.  `lineOfLast` = the line is taken from the
+    last part (repaired code); the code at the pinned commit takes it from the first part. -/
+def mergeSpan (m first last : Meta) (lineOfLast : Bool) : Meta :=
+  updatePositions m (.explicit (getKey (if lineOfLast then last.line else first.line)) (getKey last.col)
+    (getKey first.start) (getKey last.stop))
+
 /-- `Parser.expression(instance, token)`: `if token: instance.update_positions(token)` -/
 def expressionMeta (m : Meta) (token : Option Tok) : Meta :=
   match token with | some t => updatePositions m (.token t) | none => m
